@@ -158,7 +158,7 @@ KxqOK(st, e) ==
 TrChk ==
   /\ IsEv("Chk")
   /\ (On("C02") \/ On("C03")) => Full(obj[Ev.id]) = Ev.st
-  /\ (On("C01") \/ On("C02") \/ On("C03") \/ On("C12")) => KxqOK(obj[Ev.id], Ev)   \* (C12: header bytes 16..32)
+  /\ (On("C01") \/ On("C02") \/ On("C03") \/ On("C12") \/ On("C13")) => KxqOK(obj[Ev.id], Ev)   \* (C12: header bytes 16..32; C13: as decoded)
   /\ On("C12") => ImgOK(obj[Ev.id], Ev)
   /\ ObsOK(obj[Ev.id], Ev.o) /\ NzOK(obj[Ev.id], Ev.o)
   /\ UNCHANGED <<obj, uni>>
